@@ -359,6 +359,18 @@ pub fn codec_families(seed: u64, thorough: bool, out: &mut Shards) {
             out.emit(dec_event(&x, n, "random"));
         }
     }
+    // sequences: a failing decompress followed by a succeeding one, large n then small n, and back (state kept between calls)
+    {
+        let good512 = verif::compress(&vec![3i16; 512], 625).unwrap();
+        let good8 = verif::compress(&vec![-2i16; 8], 12).unwrap();
+        let mut bad512 = good512.clone();
+        bad512[300] = 0;
+        bad512[301] = 0;
+        for (x, n, tag) in [(&bad512, 512usize, "seq-bad"), (&good512, 512, "seq-good-after-bad"), (&good8, 8, "seq-small-after-large"),
+                            (&bad512, 512, "seq-bad"), (&good8, 8, "seq-small-after-bad"), (&good512, 512, "seq-large-after-small")] {
+            out.emit(dec_event(x, n, tag));
+        }
+    }
     // small odd sizes through the same wrappers (n = 1, 2, 3, 7; short buffers)
     for &(n, l) in &[(1usize, 2usize), (1, 13), (2, 3), (3, 4), (7, 9), (7, 30)] {
         for _ in 0..(if thorough { 60 } else { 10 }) {
